@@ -31,6 +31,7 @@ import (
 	"verifharness/internal/fakes"
 	"verifharness/internal/gen"
 	"verifharness/internal/model"
+	"verifharness/internal/rig"
 	"verifharness/internal/vt"
 )
 
@@ -145,6 +146,14 @@ var compNames = []string{"none", "zlib", "lz4"}
 // upstream); retries are enabled then, and what finally arrives must still be what the forwarder was given.
 var refuseFirst int32
 
+// forwarderFromConfig (drawn per case): the forwarder is built from an "http-transport" configuration block, as the server
+// builds it, instead of with its constructor.
+var forwarderFromConfig bool
+
+// compressOff (drawn per case): the forwarder's compress switch is off whatever compression type is configured next to
+// it - the body then travels uncompressed and says so.
+var compressOff bool
+
 func newRig(t vt.TB, comp string, level, slots int) *rigT {
 	r := &rigT{sink: fakes.NewSink(), rt: fakes.NewRT(), fc: verifhooks.NewFlushCoordinator()}
 	srv, err := web.NewHttpServer(logrus.StandardLogger(), r.sink, "verif", "127.0.0.1:0", false, false, true, false, nil, nil)
@@ -169,7 +178,7 @@ func newRig(t vt.TB, comp string, level, slots int) *rigT {
 	if comp == "none" {
 		ctype = "none"
 	}
-	r.fwd, err = statsd.NewHttpForwarderHandlerV2(logrus.StandardLogger(), "default", "http://upstream.invalid", slots, 4, 1, comp != "none", ctype, level, retryWindow(), time.Hour, nil, nil, pool, r.fc)
+	r.fwd, err = rig.NewForwarder(forwarderFromConfig, rig.ForwarderParams{Endpoint: "http://upstream.invalid", Slots: slots, MaxRequests: 4, Merge: 1, Compress: comp != "none" && !compressOff, CompType: ctype, Level: level, Elapsed: retryWindow(), FlushInterval: time.Hour}, pool, r.fc)
 	if err != nil {
 		t.Fatalf("forwarder: %v", err)
 	}
@@ -203,6 +212,8 @@ func TestRoundTrip(t *testing.T) {
 		if rapid.IntRange(0, 63).Draw(t, "refused-first") == 61 { // rarely: every refusal costs real back-off time
 			atomic.StoreInt32(&refuseFirst, int32(rapid.IntRange(1, 2).Draw(t, "refusals")))
 		}
+		forwarderFromConfig = rapid.Bool().Draw(t, "built-from-configuration")
+		compressOff = rapid.IntRange(0, 3).Draw(t, "compress-switch-off") == 0
 		r := newRig(t, comp, level, slots)
 		defer r.close()
 		maps := rapid.SliceOfN(mapGen(), 1, 3).Draw(t, "maps")
@@ -257,6 +268,9 @@ func TestRoundTrip(t *testing.T) {
 		for _, a := range r.rt.Attempts() {
 			if a.Path == "/v2/raw" {
 				wantEnc := map[string]string{"none": "identity", "zlib": "deflate", "lz4": "lz4"}[comp]
+				if compressOff {
+					wantEnc = "identity"
+				}
 				if a.Header.Get("Content-Encoding") != wantEnc {
 					vt.Fail(t, "C14:content-encoding", "compression %s sent Content-Encoding %q", comp, a.Header.Get("Content-Encoding"))
 				}
